@@ -104,6 +104,62 @@ def unary_chain_circuit(rng, kind):
             'users': list(users.items()), 'blocks': []}
 
 
+def near_duplicate_circuit(rng):
+    """gates that are duplicates or NEAR-duplicates of each other: same type with permuted operands, with one
+    operand repeated (n-ary XOR(a,a,b) next to XOR(a,b)), with one operand swapped, same operands with
+    another type, asymmetric gates with mirrored operands; every variant is also an output, so a wrong
+    merge is visible in the truth table"""
+    used, order, avail = set(), [], []
+    for _ in range(rng.randint(2, 4)):
+        l = gen.fresh_label(rng, used)
+        used.add(l)
+        order.append((l, 'INPUT', []))
+        avail.append(l)
+    sym = ['AND', 'OR', 'XOR', 'NXOR', 'NAND', 'NOR']
+    asym = ['GT', 'LT', 'GEQ', 'LEQ', 'LIFF', 'RIFF', 'LNOT', 'RNOT']
+    outs = []
+
+    def add(t, ops):
+        l = gen.fresh_label(rng, used)
+        used.add(l)
+        order.append((l, t, list(ops)))
+        avail.append(l)
+        outs.append(l)
+        return l
+
+    for _ in range(rng.randint(1, 4)):
+        if rng.random() < 0.7:
+            t = rng.choice(sym)
+            ops = [rng.choice(avail) for _ in range(rng.randint(2, 4))]
+        else:
+            t = rng.choice(asym)
+            ops = [rng.choice(avail), rng.choice(avail)]
+        add(t, ops)
+        for _ in range(rng.randint(1, 4)):
+            v = rng.randrange(6)
+            o2, t2 = list(ops), t
+            if v == 0:
+                rng.shuffle(o2)
+            elif v == 1 and t in sym:
+                o2.insert(rng.randrange(len(o2) + 1), rng.choice(o2))
+            elif v == 2:
+                o2[rng.randrange(len(o2))] = rng.choice(avail)
+            elif v == 3:
+                t2 = rng.choice(sym if (t in sym or len(o2) != 2) else sym + asym)
+            elif v == 4 and t in sym:
+                o2 = sorted(set(o2)) if len(set(o2)) >= 2 else o2
+            else:
+                o2 = o2[::-1]
+            add(t2, o2)
+    users = {}
+    for l, t, ops in order:
+        for o in ops:
+            users.setdefault(o, []).append(l)
+    rng.shuffle(outs)
+    return {'inputs': [l for l, t, _ in order if t == 'INPUT'], 'outputs': outs[:rng.randint(2, max(2, len(outs)))],
+            'gates': order, 'users': list(users.items()), 'blocks': []}
+
+
 LEAVES = [['RR', False], ['RR', True], ['MU'], ['MD'], ['ME']]
 
 
